@@ -37,6 +37,14 @@ class ReturnValue(Exception):
         self.value = value
 
 
+class _Continue(Exception):
+    pass
+
+
+class _Break(Exception):
+    pass
+
+
 class RaisedInModel(Exception):
     """The interpreted code executed a `raise` statement."""
 
@@ -338,12 +346,36 @@ class Evaluator:
         elif isinstance(st, ast.If):
             self.exec_block(st.body if self.truth(self.ev(st.test), st.test) else st.orelse)
         elif isinstance(st, ast.For):
+            broke = False
             for item in self.ev(st.iter):
                 self.bind(st.target, item)
-                self.exec_block(st.body)
-            self.exec_block(st.orelse)
+                try:
+                    self.exec_block(st.body)
+                except _Continue:
+                    continue
+                except _Break:
+                    broke = True
+                    break
+            if not broke:
+                self.exec_block(st.orelse)
+        elif isinstance(st, ast.Continue):
+            raise _Continue()
+        elif isinstance(st, ast.Break):
+            raise _Break()
         elif isinstance(st, ast.Raise):
             raise RaisedInModel(st)
+        elif isinstance(st, ast.Delete):
+            for t in st.targets:
+                if isinstance(t, ast.Subscript):
+                    base = self.ev(t.value)
+                    try:
+                        del base[self.ev_index(t.slice)]
+                    except Exception as e:
+                        raise Unsupported("del %s: %s" % (ast.unparse(t), e))
+                elif isinstance(t, ast.Name):
+                    self.env.pop(t.id, None)
+                else:
+                    raise Unsupported("del %s" % ast.unparse(t))
         elif isinstance(st, ast.Pass):
             pass
         else:
